@@ -119,6 +119,7 @@ static bool _timeout(struct timeval *timestamp, struct timeval *timeout,
                      struct timeval *timeleft);
 static int _get_all_script(Device * dev, int com);
 static int _get_ranged_script(Device * dev, int com);
+static bool _is_query_action(int com);
 static int _enqueue_actions(Device * dev, int com, hostlist_t hl,
                             ActionCB complete_fun, VerbosePrintf vpf_fun,
                             DiagPrintf dpf_fun, int client_id, ArgList arglist);
@@ -446,6 +447,34 @@ static bool _command_needs_device(Device * dev, hostlist_t hl)
     return needed;
 }
 
+/* helper for dev_check_actions: true if 'dev' has a variant of script 'com'
+ * that _enqueue_targeted_actions() can use for the plugs named in 'hl'.
+ * The _all variant of a non-query script is only usable when every plug
+ * of the device is targeted.
+ */
+static bool _command_handled_by_device(Device * dev, int com, hostlist_t hl)
+{
+    bool all = true;
+    PlugListIterator itr;
+    Plug *plug;
+
+    if (dev->scripts[com] || _get_ranged_script(dev, com) != -1)
+        return true;
+    if (_get_all_script(dev, com) == -1)
+        return false;
+    if (_is_query_action(com))
+        return true;
+    itr = pluglist_iterator_create(dev->plugs);
+    while ((plug = pluglist_next(itr))) {
+        if (plug->node == NULL || hostlist_find(hl, plug->node) == -1) {
+            all = false;
+            break;
+        }
+    }
+    pluglist_iterator_destroy(itr);
+    return all;
+}
+
 /*
  * Return true if all devices targeted by hostlist implement the
  * specified action.
@@ -461,8 +490,7 @@ bool dev_check_actions(int com, hostlist_t hl)
     itr = list_iterator_create(dev_devices);
     while ((dev = list_next(itr))) {
         if (_command_needs_device(dev, hl)) {
-            if (!dev->scripts[com] && _get_all_script(dev, com) == -1
-                                   && _get_ranged_script(dev, com) == -1)  {
+            if (!_command_handled_by_device(dev, com, hl)) {
                 valid = false;
                 break;
             }
